@@ -318,16 +318,9 @@ def prm_section_full(eff, flag):
     return base + extra
 
 
-def run_request(obs):
-    """The end-to-end request for a scene that ran to completion (all three stages)."""
-    prm = prm_section_full(obs['eff'], obs['flag'])
-    if prm is None:
-        return None
-    tr = obs['trace']
-    chunk = obs['chunk']
-    secs = ['RUN', prm,
-            'ROWS ' + ' ; '.join(f'{tok(c)} {common.frac(dt)} {common.frac(h)} {t}' for c, dt, h, t in obs['rows'])]
-    secs += kernel_sections(obs)
+def extra_kernel_sections(tr):
+    """CLUST / GMM / BPROB / ASORT / PORD sections from a trace."""
+    secs = []
     cl = [c for c in tr.cluster if 'labels' in c]
     secs.append('CLUST ' + ' ; '.join(
         f"{c['kwargs'].get('linkage')} {common.frac(c['kwargs'].get('distance_threshold'))} {len(c['pts'])} "
@@ -352,6 +345,20 @@ def run_request(obs):
     secs.append('PORD ' + ' ; '.join(
         f"{len(s['keys'])} " + ' '.join(common.frac(v) for v in s['keys']) + ' ' + ' '.join(map(str, s['perm']))
         for s in po))
+    return secs
+
+
+def run_request(obs):
+    """The end-to-end request for a scene that ran to completion (all three stages)."""
+    prm = prm_section_full(obs['eff'], obs['flag'])
+    if prm is None:
+        return None
+    tr = obs['trace']
+    chunk = obs['chunk']
+    secs = ['RUN', prm,
+            'ROWS ' + ' ; '.join(f'{tok(c)} {common.frac(dt)} {common.frac(h)} {t}' for c, dt, h, t in obs['rows'])]
+    secs += kernel_sections(obs)
+    secs += extra_kernel_sections(tr)
     secs.append(data_section(obs['data']))
     secs.append('FLAG ' + ('T' if obs['flag'] else 'F'))
     secs.append('SIDS ' + ' '.join(str(int(v)) for v in chunk.data['slice_id']))
